@@ -3,7 +3,7 @@
 import itertools
 
 BEH9 = ["ok", "fail", "error", "skip", "xfail", "uxs", "multi", "kbd", "exit"]
-RAISE_KINDS = ["fail", "error", "skip", "xfail", "uxs", "kbd", "exit", "kbdsub", "exitsub",
+RAISE_KINDS = ["fail", "error", "skip", "xfail", "uxs", "kbd", "exit", "kbdsub", "exitsub", "basedirect",
                "skipsub", "failsub", "mismatch"]
 
 
@@ -46,8 +46,10 @@ def random_raise(rng, tok, kinds=RAISE_KINDS, custom=(), depth=0):
     r = rng.random()
     if r < 0.12 and depth < 2:
         n = rng.randint(1, 3)
-        subs = [random_raise(rng, tok, ["fail", "error", "failsub"] + list(custom), custom, depth + 1)
-                for _ in range(n)]
+        sub_kinds = ["fail", "error", "failsub"] + list(custom)
+        if "kbd" in kinds and rng.random() < 0.3:
+            sub_kinds += ["kbd", "exit"]     # e.g. stacked fixtures interrupted while setting up
+        subs = [random_raise(rng, tok, sub_kinds, custom, depth + 1) for _ in range(n)]
         return ["multi", subs, tok("MM")]
     pool = list(kinds) + list(custom)
     k = rng.choice(pool)
@@ -66,7 +68,8 @@ def random_program(rng, *, max_cleanups=4, kinds=RAISE_KINDS, p_raise=0.35, feat
         hs = []
         if rng.random() < 0.3:
             custom.append("custom:CustomFalsy")   # no handler of its own: the Exception catch-all
-        for name in rng.sample(["CustomA", "CustomB", "CustomC"], rng.randint(1, 3)):
+        pool = ["CustomA", "CustomB", "CustomC"] + (["CustomBase"] if "base_handler" in feats else [])
+        for name in rng.sample(pool, rng.randint(1, 3)):
             report = rng.choice(["skip", "failure", "error", "xfail", "uxs"])
             hs.append([name, report, rng.choice([0, 0, 0, 1, 2])])
             custom.append("custom:" + name)
@@ -162,6 +165,17 @@ def random_program(rng, *, max_cleanups=4, kinds=RAISE_KINDS, p_raise=0.35, feat
         if rng.random() < 0.3:
             p["decor_reason"] = ""
     if p.get("decor") == "stdlib_expectedFailure":
+        # unittest's contract for the decorator is "whatever Exception the method raises is the expected
+        # failure" - a MultipleExceptions (an Exception) included, whatever it holds.  Interrupts packed
+        # into one raised by the decorated METHOD ITSELF are therefore not generated (C01 speaks about
+        # exceptions that do not derive from Exception).
+        def soften(a):
+            if a[0] == "multi":
+                return ["multi", [soften(x) for x in a[1]], a[2]]
+            if a[0] == "raise" and a[1] in ("kbd", "exit", "kbdsub", "exitsub", "basedirect"):
+                return ["raise", "error", a[2]]
+            return a
+        p["test"] = [soften(a) if a[0] == "multi" else a for a in p["test"]]
         # TestCase.__init__ stores the @expectedFailure wrapper, bound to THAT instance, as an instance
         # attribute; a shallow clone would run the original's method.  Not combined (see DESIGN §6).
         p.pop("clone_id", None)
